@@ -14,9 +14,11 @@ import (
 	"runtime/debug"
 	"sync"
 	"syscall"
+	"time"
 	"unsafe"
 
 	ipfslog "berty.tech/go-ipfs-log"
+	"berty.tech/go-ipfs-log/entry"
 	idp "berty.tech/go-ipfs-log/identityprovider"
 	"berty.tech/go-ipfs-log/iface"
 	ipld "github.com/ipfs/go-ipld-format"
@@ -107,6 +109,8 @@ type sched struct {
 	preempts  int
 	lockWaits int
 	lockNames map[*sync.RWMutex]string
+	fine      bool // also yield at the entry index' own lock
+	grace     int
 }
 
 // S is the active scheduler; touched only from //go:norace code while tasks run.
@@ -115,19 +119,23 @@ var S *sched
 func init() {
 	ipfslog.VerifHook.BeforeLock = e1BeforeLock
 	ipfslog.VerifHook.Yield = e1Yield
+	entry.VerifBeforeLock = e1MapBeforeLock
 	e1AddHook = e1Add
 }
 
 //go:norace
 func curTask() *task {
 	s := S
-	if s == nil || s.cur == nil {
+	if s == nil {
 		return nil
 	}
-	if s.cur.goid != goid() {
+	// read once: library goroutines that are not tasks (Join's verification workers) call the hooks
+	// concurrently with the scheduler, which changes s.cur
+	c := s.cur
+	if c == nil || c.goid != goid() {
 		return nil
 	}
-	return s.cur
+	return c
 }
 
 //go:norace
@@ -144,6 +152,18 @@ func e1Yield(site string) {
 	if t.abort {
 		runtime.Goexit()
 	}
+}
+
+// e1MapBeforeLock: scheduling points at the OrderedMap's own lock (fine-grained runs only: they make
+// schedules an order of magnitude longer, so only a third of the runs use them).
+//
+//go:norace
+func e1MapBeforeLock(mu *sync.RWMutex, write bool, site string) {
+	s := S
+	if s == nil || !s.fine {
+		return
+	}
+	e1BeforeLock(mu, write, site)
 }
 
 //go:norace
@@ -207,6 +227,8 @@ func e1Add(n ipld.Node) (bool, error) {
 //go:norace
 func (s *sched) now() int { s.clock++; return s.clock }
 
+func sleepReal() { time.Sleep(2 * time.Millisecond) }
+
 // writerPending: another task has called Lock() on mu and is still waiting for it.
 //
 //go:norace
@@ -224,7 +246,7 @@ func (s *sched) lockName(mu *sync.RWMutex) string {
 	if n, ok := s.lockNames[mu]; ok {
 		return n
 	}
-	return fmt.Sprintf("%p", mu)
+	return "an entry index lock"
 }
 
 //go:norace
@@ -299,6 +321,16 @@ func (s *sched) run() {
 			return
 		}
 		if len(el) == 0 {
+			// Before calling it a deadlock, give goroutines that are not tasks (verification workers that
+			// outlived their Join, in a defective library) a moment to let go of whatever they hold: the
+			// polling rule is exact only when tasks are the only lock holders. Real time is used for this
+			// grace period alone; with no stray goroutine the outcome does not depend on it.
+			if s.grace < 20 {
+				s.grace++
+				sleepReal()
+				s.epoch++
+				continue
+			}
 			s.deadlock = true
 			msg := ""
 			for _, t := range s.tasks {
@@ -336,6 +368,7 @@ func (s *sched) run() {
 			s.r.Logf("  %s blocked at %s on %s", t.name, t.site, s.lockName(t.mu))
 		} else {
 			s.epoch++
+			s.grace = 0
 			if t.state == stDone {
 				s.r.Logf("  %s done", t.name)
 			} else {
@@ -355,6 +388,10 @@ func e1TaskDone(t *task) {
 func RunTasks(r *Run, names []string, fns []func(t *task), lockNames map[*sync.RWMutex]string) *sched {
 	s := &sched{r: r, back: newGate(), lockNames: lockNames, lastIdx: -1}
 	s.policy = r.Choose("sched-policy", 3)
+	s.fine = r.Choose("fine-grained", 3) == 0
+	if s.fine {
+		r.Probe("fine-grained-map-yields")
+	}
 	if s.policy == 1 {
 		k := r.Choose("pct-d", 4)
 		for i := 0; i < k; i++ {
